@@ -157,6 +157,11 @@ def make_cases(chk: Check) -> list[dict]:
         if not thorough:  # quick: two output shapes only -> few distinct kernels
             ops = gen.map_shapes(ops, {"s1": "s0", "e": "s0", "0": "d"})
         add(ops, "cffi", None, f"exhaustive<= {cffi_len}/2names/cffi")
+    # evaluations through TensorMethod(Problem(...)) with the output format listed last
+    for sk in gen.enumerate_skeletons(4 if thorough else 3, 2, False):
+        add(gen.assign_shapes(sk, rng), "direct", None, "exhaustive/2names/direct-problem")
+    for _ in range(600 if thorough else 150):
+        add(gen.random_history(rng, rng.randint(3, 7), 3), "direct", rng.choice([None, "2"]), "random/direct-problem")
     if thorough:
         for _ in range(600):
             h = gen.random_history(rng, rng.randint(4, 8), 3)
